@@ -11,6 +11,12 @@ import PyTough.Proofs.ThermoSat
 import PyTough.Proofs.ThermoSatExamples
 import PyTough.Proofs.ThermoSatOn
 import PyTough.Proofs.ThermoMono
+import PyTough.Proofs.IapwsMonoR1BoxA
+import PyTough.Proofs.IapwsMonoR1BoxB
+import PyTough.Proofs.IapwsMonoR1BoxC
+import PyTough.Proofs.IapwsMonoR1Slabs
+import PyTough.Proofs.IapwsMonoSatBounds
+import PyTough.Proofs.IapwsMonoR1Kappa
 import PyTough.Proofs.ThermoVisc
 
 namespace Props.C14
@@ -103,6 +109,133 @@ theorem density_monotone_r2_partial (t p1 p2 : ℝ) (ht : t ≤ 800) (h1 : 0 < p
   · exact density_mono_box5 t p1 p2 a ht h1 h12 b
 
 example : (400 : ℝ) ≤ 800 ∧ (0 : ℝ) < 100000 ∧ (100000 : ℝ) < 8000000 ∧ ((350 : ℝ) ≤ 400 ∧ (8000000 : ℝ) ≤ 10000000) := by norm_num
+
+/-- **Region 1 (liquid water, `cowat`), on sixteen boxes**: at fixed `t`, for pressures `p1 < p2 ≤ 100 MPa` of the box, `cowat` returns a
+    positive density that strictly increases with pressure.  Covered: every pressure `0 … 100 MPa` for `0 ≤ t ≤ 230` degC; for the five slabs
+    230–235–240–243–246–250 degC every pressure from a limit (2.0, 2.5, 3.0, 3.0, 3.3 MPa) that lies below the saturation pressure
+    everywhere on the slab (proved: `Proofs/IapwsMonoSatBounds.lean`, used in `density_monotone_region1_partial`) up to 100 MPa, so liquid
+    water is covered up to 250 degC; and for each 10-degree slab from 250 to 350 degC the pressures from the stated lower limit (14.5 MPa at 250–260 … 50 MPa at
+    340–350) up to 100 MPa.
+    `ρ = p* / (R T γ_π)`, `γ_π = −Σ nᵢ Iᵢ (7.1 − π)^(Iᵢ−1) (τ − 1.222)^Jᵢ`; on each box every term of `γ_π` and of its difference quotient
+    in `π` is bounded at the corner chosen by the signs of `nᵢ`, `Jᵢ` (both bases are positive), and the two sums of corner values over the
+    generated 34-row table are negative (`norm_num`), i.e. `γ_π > 0`, `γ_ππ < 0`; pressure intervals of one slab are chained
+    (`Proofs/IapwsMonoR1*.lean`).
+    `_partial`: above 250 degC the strip between the saturation pressure (4.0 MPa at 250 … 16.5 MPa at 350 degC) and the stated lower
+    limit is not proved — there the terms `I = 29 … 32` cancel to many digits and termwise bounds fail even on tiny boxes (sampled by the
+    oracle); region 3 is not proved. -/
+theorem density_monotone_r1_partial (t p1 p2 : ℝ) (h12 : p1 < p2) (hp2 : p2 ≤ 100000000)
+    (hbox : (0 ≤ t ∧ t ≤ 230 ∧ 0 ≤ p1) ∨
+            (230 ≤ t ∧ t ≤ 235 ∧ 2000000 ≤ p1) ∨ (235 ≤ t ∧ t ≤ 240 ∧ 2500000 ≤ p1) ∨ (240 ≤ t ∧ t ≤ 243 ∧ 3000000 ≤ p1) ∨
+            (243 ≤ t ∧ t ≤ 246 ∧ 3000000 ≤ p1) ∨ (246 ≤ t ∧ t ≤ 250 ∧ 3300000 ≤ p1) ∨ (250 ≤ t ∧ t ≤ 260 ∧ 14500000 ≤ p1) ∨
+            (260 ≤ t ∧ t ≤ 270 ∧ 19000000 ≤ p1) ∨ (270 ≤ t ∧ t ≤ 280 ∧ 23500000 ≤ p1) ∨ (280 ≤ t ∧ t ≤ 290 ∧ 28000000 ≤ p1) ∨
+            (290 ≤ t ∧ t ≤ 300 ∧ 32000000 ≤ p1) ∨ (300 ≤ t ∧ t ≤ 310 ∧ 36000000 ≤ p1) ∨ (310 ≤ t ∧ t ≤ 320 ∧ 40000000 ≤ p1) ∨
+            (320 ≤ t ∧ t ≤ 330 ∧ 43500000 ≤ p1) ∨ (330 ≤ t ∧ t ≤ 340 ∧ 46500000 ≤ p1) ∨ (340 ≤ t ∧ t ≤ 350 ∧ 50000000 ≤ p1)) :
+    ∃ d1 u1 d2 u2, cowat t p1 = Ret.pair d1 u1 ∧ cowat t p2 = Ret.pair d2 u2 ∧ 0 < d1 ∧ d1 < d2 := by
+  rcases hbox with ⟨a, b, c⟩ | ⟨a, b, c⟩ | ⟨a, b, c⟩ | ⟨a, b, c⟩ | ⟨a, b, c⟩ | ⟨a, b, c⟩ | ⟨a, b, c⟩ | ⟨a, b, c⟩ | ⟨a, b, c⟩ |
+    ⟨a, b, c⟩ | ⟨a, b, c⟩ | ⟨a, b, c⟩ | ⟨a, b, c⟩ | ⟨a, b, c⟩ | ⟨a, b, c⟩ | ⟨a, b, c⟩
+  · by_cases h : t ≤ 225
+    · exact cowat_mono_box0 t p1 p2 a h c h12 hp2
+    · exact cowat_mono_box1 t p1 p2 (by linarith) b c h12 hp2
+  · exact cowat_mono_slab230 t p1 p2 a b c h12 hp2
+  · exact cowat_mono_slab235 t p1 p2 a b c h12 hp2
+  · exact cowat_mono_slab240 t p1 p2 a b c h12 hp2
+  · exact cowat_mono_slab243 t p1 p2 a b c h12 hp2
+  · exact cowat_mono_slab246 t p1 p2 a b c h12 hp2
+  · exact cowat_mono_box4 t p1 p2 a b c h12 hp2
+  · exact cowat_mono_box5 t p1 p2 a b c h12 hp2
+  · exact cowat_mono_box6 t p1 p2 a b c h12 hp2
+  · exact cowat_mono_box7 t p1 p2 a b c h12 hp2
+  · exact cowat_mono_box8 t p1 p2 a b c h12 hp2
+  · exact cowat_mono_box9 t p1 p2 a b c h12 hp2
+  · exact cowat_mono_box10 t p1 p2 a b c h12 hp2
+  · exact cowat_mono_box11 t p1 p2 a b c h12 hp2
+  · exact cowat_mono_box12 t p1 p2 a b c h12 hp2
+  · exact cowat_mono_box13 t p1 p2 a b c h12 hp2
+
+example : (101325 : ℝ) < 50000000 ∧ (50000000 : ℝ) ≤ 100000000 ∧ ((0 : ℝ) ≤ 100 ∧ (100 : ℝ) ≤ 230 ∧ (0 : ℝ) ≤ 101325) := by norm_num
+example : (3800000 : ℝ) < 4000000 ∧ (4000000 : ℝ) ≤ 100000000 ∧ ((246 : ℝ) ≤ 248 ∧ (248 : ℝ) ≤ 250 ∧ (3300000 : ℝ) ≤ 3800000) := by norm_num
+example : (60000000 : ℝ) < 90000000 ∧ (90000000 : ℝ) ≤ 100000000 ∧ ((340 : ℝ) ≤ 345 ∧ (345 : ℝ) ≤ 350 ∧ (50000000 : ℝ) ≤ 60000000) := by norm_num
+
+/-- **All of region 1 up to 250 degC**: whenever the classifier puts both states `(t, p1)`, `(t, p2)`, `p1 < p2`, in region 1 and
+    `t ≤ 250`, the density `cowat` returns is positive and strictly larger at the higher pressure — no box hypothesis (between 230 and
+    250 degC the saturation pressure is enclosed from below on each slab: `sat t ≥` 2.0, 2.5, 3.0, 3.0, 3.3 MPa, so `p1 > sat t` puts the
+    state in the slab's box).  `_partial`: only `t ≤ 250` (for hotter liquid see the boxes of `density_monotone_r1_partial`). -/
+theorem density_monotone_region1_partial (t p1 p2 : ℝ) (ht : t ≤ 250) (h12 : p1 < p2)
+    (hr1 : region t p1 = Ret.int 1) (hr2 : region t p2 = Ret.int 1) :
+    ∃ d1 u1 d2 u2, cowat t p1 = Ret.pair d1 u1 ∧ cowat t p2 = Ret.pair d2 u2 ∧ 0 < d1 ∧ d1 < d2 := by
+  obtain ⟨a, _, c, _, e⟩ := (region_one t p1).mp hr1
+  obtain ⟨_, _, _, d, _⟩ := (region_one t p2).mp hr2
+  have : (0 : ℝ) ≤ tmin := by unfold tmin; norm_num
+  have es : satP t = satK t := rfl
+  rw [es] at e
+  apply density_monotone_r1_partial t p1 p2 h12 d
+  by_cases h230 : t ≤ 230
+  · exact Or.inl ⟨by linarith, h230, c⟩
+  have g230 : 230 ≤ t := le_of_lt (not_le.mp h230)
+  by_cases h235 : t ≤ 235
+  · exact Or.inr (Or.inl ⟨g230, h235, by linarith [(satK_Q230 t g230 h235).1]⟩)
+  have g235 : 235 ≤ t := le_of_lt (not_le.mp h235)
+  by_cases h240 : t ≤ 240
+  · exact Or.inr (Or.inr (Or.inl ⟨g235, h240, by linarith [(satK_Q235 t g235 h240).1]⟩))
+  have g240 : 240 ≤ t := le_of_lt (not_le.mp h240)
+  by_cases h243 : t ≤ 243
+  · exact Or.inr (Or.inr (Or.inr (Or.inl ⟨g240, h243, by linarith [(satK_Q240 t g240 h243).1]⟩)))
+  have g243 : 243 ≤ t := le_of_lt (not_le.mp h243)
+  by_cases h246 : t ≤ 246
+  · exact Or.inr (Or.inr (Or.inr (Or.inr (Or.inl ⟨g243, h246, by linarith [(satK_Q243 t g243 h246).1]⟩))))
+  have g246 : 246 ≤ t := le_of_lt (not_le.mp h246)
+  exact Or.inr (Or.inr (Or.inr (Or.inr (Or.inr (Or.inl ⟨g246, ht, by linarith [(satK_Q246 t g246 ht).1]⟩)))))
+
+/-- non-vacuity: the classifier does put `(100 degC, 0.2 MPa)`, `(100 degC, 0.3 MPa)` and `(248 degC, 5 MPa)`, `(248 degC, 6 MPa)` in
+    region 1 (`sat 100 ≤ 107 kPa`, `sat 248 ≤ 4.31 MPa` by the same enclosures), so the theorem applies to them -/
+example : region (100 : ℝ) 200000 = Ret.int 1 ∧ region (100 : ℝ) 300000 = Ret.int 1 := by
+  have h := (satK_Q99 100 (by norm_num) (by norm_num)).2
+  have e : satP (100 : ℝ) = satK 100 := rfl
+  constructor <;> rw [region_one, e] <;> refine ⟨by unfold tmin; norm_num, by norm_num, by norm_num, by norm_num, by linarith⟩
+example : ∃ d1 u1 d2 u2, cowat (248 : ℝ) 5000000 = Ret.pair d1 u1 ∧ cowat (248 : ℝ) 6000000 = Ret.pair d2 u2 ∧ 0 < d1 ∧ d1 < d2 := by
+  have h := (satK_Q246 248 (by norm_num) (by norm_num)).2
+  have e : satP (248 : ℝ) = satK 248 := rfl
+  apply density_monotone_region1_partial 248 5000000 6000000 (by norm_num) (by norm_num) <;> rw [region_one, e] <;>
+    refine ⟨by unfold tmin; norm_num, by norm_num, by norm_num, by norm_num, by linarith⟩
+
+/-- **Isothermal compressibility of liquid water is positive, in the conventional form** `κ_T = (1/ρ)(∂ρ/∂p)_T = −(1/v)(∂v/∂p)_T > 0`:
+    `rho1 t p' = p* / (R T γ_π(t, p'))` is the density `cowat` returns at every `p' ≤ 100 MPa` (first conjunct); at every state of the
+    fourteen boxes below it is positive and differentiable in `p` with `(1/ρ) ∂ρ/∂p > 0` (`γ_ππ ≤` the same termwise corner sum `< 0`).
+    Boxes: every pressure `0 … 100 MPa` for `0 ≤ t ≤ 230` degC; 230–240 from 4 MPa, 240–250 from 9.5 MPa, then the ten 10-degree slabs of
+    `density_monotone_r1_partial` (single boxes only — the chained pressure intervals between 230 and 250 degC are not repeated here).
+    At `p = 100 MPa` exactly the derivative is that of the formula, of which `cowat` realises the left half-neighbourhood.
+    `_partial`: same uncovered strip near saturation above 230 degC as stated; regions 2 and 3 not done in this form. -/
+theorem compressibility_pos_r1_partial (t p : ℝ) (hp2 : p ≤ 100000000)
+    (hbox : (0 ≤ t ∧ t ≤ 230 ∧ 0 ≤ p) ∨
+            (230 ≤ t ∧ t ≤ 240 ∧ 4000000 ≤ p) ∨ (240 ≤ t ∧ t ≤ 250 ∧ 9500000 ≤ p) ∨ (250 ≤ t ∧ t ≤ 260 ∧ 14500000 ≤ p) ∨
+            (260 ≤ t ∧ t ≤ 270 ∧ 19000000 ≤ p) ∨ (270 ≤ t ∧ t ≤ 280 ∧ 23500000 ≤ p) ∨ (280 ≤ t ∧ t ≤ 290 ∧ 28000000 ≤ p) ∨
+            (290 ≤ t ∧ t ≤ 300 ∧ 32000000 ≤ p) ∨ (300 ≤ t ∧ t ≤ 310 ∧ 36000000 ≤ p) ∨ (310 ≤ t ∧ t ≤ 320 ∧ 40000000 ≤ p) ∨
+            (320 ≤ t ∧ t ≤ 330 ∧ 43500000 ≤ p) ∨ (330 ≤ t ∧ t ≤ 340 ∧ 46500000 ≤ p) ∨ (340 ≤ t ∧ t ≤ 350 ∧ 50000000 ≤ p)) :
+    (∀ p' : ℝ, p' ≤ 100000000 → ∃ u, cowat t p' = Ret.pair (rho1 t p') u) ∧ 0 < rho1 t p ∧
+    ∃ ρ', HasDerivAt (fun p' => rho1 t p') ρ' p ∧ 0 < 1 / rho1 t p * ρ' := by
+  have key : 0 ≤ t ∧ t ≤ 350 ∧ (0 < rho1 t p ∧ ∃ ρ', HasDerivAt (fun p' => rho1 t p') ρ' p ∧ 0 < ρ') := by
+    rcases hbox with ⟨a, b, c⟩ | ⟨a, b, c⟩ | ⟨a, b, c⟩ | ⟨a, b, c⟩ | ⟨a, b, c⟩ | ⟨a, b, c⟩ | ⟨a, b, c⟩ | ⟨a, b, c⟩ | ⟨a, b, c⟩ |
+      ⟨a, b, c⟩ | ⟨a, b, c⟩ | ⟨a, b, c⟩ | ⟨a, b, c⟩
+    · refine ⟨a, by linarith, ?_⟩
+      by_cases h : t ≤ 225
+      · exact kappa_box0 t p a h c hp2
+      · exact kappa_box1 t p (by linarith) b c hp2
+    · exact ⟨by linarith, by linarith, kappa_box2 t p a b c hp2⟩
+    · exact ⟨by linarith, by linarith, kappa_box3 t p a b c hp2⟩
+    · exact ⟨by linarith, by linarith, kappa_box4 t p a b c hp2⟩
+    · exact ⟨by linarith, by linarith, kappa_box5 t p a b c hp2⟩
+    · exact ⟨by linarith, by linarith, kappa_box6 t p a b c hp2⟩
+    · exact ⟨by linarith, by linarith, kappa_box7 t p a b c hp2⟩
+    · exact ⟨by linarith, by linarith, kappa_box8 t p a b c hp2⟩
+    · exact ⟨by linarith, by linarith, kappa_box9 t p a b c hp2⟩
+    · exact ⟨by linarith, by linarith, kappa_box10 t p a b c hp2⟩
+    · exact ⟨by linarith, by linarith, kappa_box11 t p a b c hp2⟩
+    · exact ⟨by linarith, by linarith, kappa_box12 t p a b c hp2⟩
+    · exact ⟨by linarith, by linarith, kappa_box13 t p a b c hp2⟩
+  obtain ⟨ht0, ht, hpos, ρ', hd, hρ⟩ := key
+  exact ⟨fun p' hp' => cowat_rho1 t p' ht0 ht hp', hpos, ρ', hd, mul_pos (one_div_pos.mpr hpos) hρ⟩
+
+example : (20000000 : ℝ) ≤ 100000000 ∧ ((0 : ℝ) ≤ 150 ∧ (150 : ℝ) ≤ 230 ∧ (0 : ℝ) ≤ 20000000) := by norm_num
 
 /-! ### the region classifier names the region whose equation is valid -/
 
